@@ -189,7 +189,9 @@ def check(ctx):
         for conds, sv in ev.fn_paths(fn, None, lambda n: None):
             pos = [c for c in conds if not c.startswith("not(")]
             r_ = render(sv)
-            if any(c in skipflags for c in pos) or any(c.endswith("is None") for c in conds):
+            modes_ = [p_["pat"].get("name") for p_ in fn.sig.get("params", []) if p_.get("pat") and re.fullmatch(r"[A-Z]\w*", re.sub(r"\s+", "", p_.get("ty") or ""))]
+            enum_skip = sv == ("var", schemavar) and any(re.fullmatch(r"(%s) (==|matches) [\w:]+" % "|".join(map(re.escape, modes_)), c) for c in conds if modes_)
+            if any(c in skipflags for c in pos) or any(c.endswith("is None") for c in conds) or enum_skip:
                 if sv == ("var", schemavar):
                     r1.ok("apply_string_validators: unchanged when inactive")
                 else:
@@ -241,7 +243,38 @@ def check(ctx):
         def res_shape(name):
             return None if name.startswith("apply_") else sb(name)
         seen = set()
+        # the skip flag as a two-valued enum (`Validation::Skip` / `Validation::Apply`): which variant means "skip" is read off the appliers — the
+        # variant under whose equality test they hand the schema back unchanged; the recursive calls' argument texts are normalised to true/false
+        skip_txt, apply_txt = set(), set()
+        for an_ in ("apply_length_validator", "apply_range_validator", "apply_string_validators"):
+            afn = sb(an_)
+            if afn is None:
+                continue
+            _sf, sv_name = param_roles(afn)
+            for conds_, sv_ in ev.fn_paths(afn, None, lambda n: None):
+                if sv_ != ("var", sv_name):
+                    continue
+                for c_ in conds_:
+                    m_ = re.fullmatch(r"\w+ (?:==|matches) ((?:\w+\s*::\s*)*(\w+)\s*::\s*(\w+))", c_)
+                    if m_ and m_.group(2) in S.enums and len(S.enums[m_.group(2)]["variants"]) == 2:
+                        skip_txt.add(re.sub(r"\s+", "", m_.group(1)).split("::")[-1])
+                        apply_txt.update(v_["name"] for v_ in S.enums[m_.group(2)]["variants"] if v_["name"] != m_.group(3))
+
+        def norm_rec(t):
+            last = re.sub(r"\s+", "", t).split("::")[-1]
+            return "true" if last in skip_txt and "::" in t else ("false" if last in apply_txt and "::" in t else t)
+
+        def norm_sv(x):
+            if isinstance(x, tuple):
+                if x and x[0] == "rec" and len(x) > 3 and isinstance(x[3], tuple):
+                    return x[:3] + (tuple(norm_rec(t) if isinstance(t, str) else t for t in x[3]),) + x[4:]
+                return tuple(norm_sv(y) for y in x)
+            if isinstance(x, list):
+                return [norm_sv(y) for y in x]
+            return x
         for conds, sv in ev.fn_paths(rt, None, res_shape):
+            if skip_txt:
+                sv = norm_sv(sv)
             c = constructor_of(conds)
             r_ = render(sv)
             if c == "Array":
@@ -294,6 +327,8 @@ def check(ctx):
         if fn is None:
             continue
         ps = ev.fn_paths(fn, None, lambda n: None)
+        if ps and rt is not None and skip_txt:
+            ps = [(c_, norm_sv(v_)) for c_, v_ in ps]
         txt = render(ps[0][1]) if ps else ""
         recs = [l for l in leaves(ps[0][1])] if ps else []
         if ps and ps[0][1][0] == "rec" and ps[0][1][3][1] == want[1]:
